@@ -1,7 +1,7 @@
 (* C11 — Cell expressions denote the Boolean function MCNP assigns to them.
    Only restatements; proofs are in C11/Proofs.v. Spec vocabulary: C11/Spec.v. *)
 From Coq Require Import List NArith ZArith Bool String Ascii Lia.
-From T4V Require Import Base.Str C11.Model C11.Spec C11.Proofs C11.LexProofs C11.Layout C11.Pipeline C11.Sound.
+From T4V Require Import Base.Str C11.Model C11.Spec C11.Proofs C11.LexProofs C11.LexSound C11.Layout C11.Pipeline C11.Sound C11.Complete.
 Import ListNotations.
 Close Scope string_scope.
 Open Scope list_scope.
@@ -145,20 +145,36 @@ Print Assumptions C11_colon_hash_rejected.
    of an MCNP expression (its parentheses as MParen nodes), the tree is
    [psem e], and it denotes MCNP's meaning of that expression: the parser never
    gives a meaning to something that is not an expression, nor a wrong one.
-   String level: through the model's lexer ([tokens_of]); that the lexer reads
-   characters the way MCNP does is covered by C11_lex_render in one direction
-   and by the exhaustive tie + independent reader (c11_refparse) in the other *)
+   (token level first, string level below) *)
 Theorem C11_parse_sound : forall (ts : list token) (a : ast), parse_tokens ts = Ok a ->
   exists e, toks 0 e = ts /\ psem e = Ok a /\
     (nonzero e = true -> forall cd sg, aden cd sg a = mden cd sg e).
 Proof. exact parse_sound_den. Qed.
 Print Assumptions C11_parse_sound.
 
-Theorem C11_get_ast_sound_partial : forall (s : String.string) (a : ast), get_ast s = Ok a ->
-  exists e, tokens_of s = toks 0 e /\ psem e = Ok a /\
+(* converse of the layout lemma: a text the lexer reads without error IS a
+   writing of the layout family, of the tokens it returns *)
+Theorem C11_lex_sound : forall s : String.string, ~ In TBad (tokens_of s) ->
+  exists ws trail, render ws trail = s /\ wf_written ws = true /\ tokens_written ws = tokens_of s.
+Proof. exact tokens_of_sound. Qed.
+Print Assumptions C11_lex_sound.
+
+(* string level: every accepted text is a layout of an MCNP expression and the
+   tree denotes MCNP's meaning of it *)
+Theorem C11_get_ast_sound : forall (s : String.string) (a : ast), get_ast s = Ok a ->
+  exists e ws trail, render ws trail = s /\ wf_written ws = true /\
+    tokens_written ws = toks 0 e /\ psem e = Ok a /\
     (nonzero e = true -> forall cd sg, aden cd sg a = mden cd sg e).
-Proof. exact get_ast_sound. Qed.
-Print Assumptions C11_get_ast_sound_partial.
+Proof. exact get_ast_sound_written. Qed.
+Print Assumptions C11_get_ast_sound.
+
+(* the accepted texts are exactly the writings of the accepted expressions *)
+Theorem C11_get_ast_accepts_iff : forall s : String.string,
+  (exists a, get_ast s = Ok a) <->
+  (exists e ws trail, render ws trail = s /\ wf_written ws = true /\
+     tokens_written ws = toks 0 e /\ no_cell_under_not e && no_colon_hash e = true).
+Proof. exact get_ast_accepts_iff. Qed.
+Print Assumptions C11_get_ast_accepts_iff.
 
 (* [admissible] excludes exactly two classes of well-formed MCNP expressions
    that the code rejects (genuine defects, known findings): *)
